@@ -83,6 +83,9 @@ ServerRecv ==
      /\ IF m.k = "OPNQ"
         THEN LET t == s.cur + (IF s.next # 0 THEN 2 ELSE 1) IN
              /\ s' = IF DevSingleKeySlot THEN [cur |-> t, prev |-> 0, next |-> 0, n |-> m.n, pn |-> 0, nn |-> 0]
+                     \* corrected design: a second renewal while the token of the first has not been seen from the client yet
+                     \* makes that token current (the client has it: it ends one renewal before it begins the next)
+                     ELSE IF s.next # 0 THEN [cur |-> s.next, prev |-> s.cur, next |-> t, n |-> s.nn, pn |-> s.n, nn |-> m.n]
                      ELSE [s EXCEPT !.next = t, !.nn = m.n]
              /\ issued' = issued \cup {t}
              /\ respq' = Append(respq, [k |-> "OPNR", id |-> m.id, tok |-> t, n |-> m.n])
